@@ -240,6 +240,21 @@ Section Eval.
     | Indexed, Some r => r
     | _, _ => eval (lower_exact v)
     end.
+
+  (* try_index with the provider made explicit: `provider` = None when the table is not registered or has no
+     resolvable projection, otherwise its scan_knn (which may itself decline with None). The first component
+     records whether scan_knn was called at all. *)
+  Definition try_index (md : mode) (provider : option (vs_node -> option (list row))) (v : vs_node)
+    : bool * option (list row) :=
+    match md, provider with
+    | Indexed, Some scan_knn => (true, scan_knn v)
+    | _, _ => (false, None)
+    end.
+  Definition exec_p (md : mode) (provider : option (vs_node -> option (list row))) (v : vs_node) : list row :=
+    match snd (try_index md provider v) with
+    | Some r => r
+    | None => eval (lower_exact v)
+    end.
 End Eval.
 
 (* ---------- comparing what the harness saw with the model ---------- *)
